@@ -121,6 +121,14 @@ func migrate(db *sql.DB) error {
 	}
 
 	if uv == latestVersion {
+		// user_version alone does not prove that the objects exist
+		ok, err := schemaLooksLikeV1(db)
+		if err != nil {
+			return fmt.Errorf("inspecting schema: %w", err)
+		}
+		if !ok {
+			return fmt.Errorf("database user_version %d has unexpected partial sqlite schema", uv)
+		}
 		return nil
 	}
 
